@@ -304,7 +304,7 @@ def add_post(case, rng):
     return case
 
 
-KILL_SHARE = {'quick': 0.2, 'thorough': 0.3}
+KILL_SHARE = {'quick': 0.2, 'thorough': 0.2}
 
 
 def gen_cases(rng, tier, ctx):
@@ -315,7 +315,7 @@ def gen_cases(rng, tier, ctx):
         # kill runs (process stops at every position, two flush modes) are expensive: on a share of the cases
         c['kill'] = c['backend'] != 'dict' and (rng.random() < KILL_SHARE[tier] or c['note'] in ('cycle', 'enum delete'))
         # read primitives as fault positions (exception semantics) on a share of the cases
-        c['reads'] = c['backend'] != 'dict' and rng.random() < 0.25
+        c['reads'] = c['backend'] != 'dict' and rng.random() < (0.25 if tier == 'quick' else 0.15)
         # 'noflush': data the process only handed to python file objects are lost; 'flush': they reached the disk
         c['kill_modes'] = rng.choice([['flush'], ['flush'], ['noflush']] + ([['noflush', 'flush']] if tier == 'thorough' else []))
     return cases
